@@ -111,7 +111,6 @@ fn check_effect(d: &Delivery) {
 
 // HARNESS props=C16 tier=quick profile=app shape="shipped example app; delivery and approval record independent, strings <=2, payload <=3 bytes"
 #[kani::proof]
-#[kani::unwind(100)]
 #[kani::stub(axelar_gateway::messaging_interface::xc_AxelarGatewayMessagingClient_validate_message, spec_validate_message)]
 #[kani::stub(axelar_gateway::messaging_interface::xc_AxelarGatewayMessagingClient_is_message_approved, spec_is_message_approved)]
 #[kani::stub(axelar_gateway::messaging_interface::xc_AxelarGatewayMessagingClient_is_message_executed, spec_is_message_executed)]
@@ -136,7 +135,6 @@ impl AxelarExecutableInterface for MiniApp {
 }
 // HARNESS props=C16 tier=quick profile=app shape="minimal app using AxelarExecutableInterface::validate_message"
 #[kani::proof]
-#[kani::unwind(100)]
 #[kani::stub(axelar_gateway::messaging_interface::xc_AxelarGatewayMessagingClient_validate_message, spec_validate_message)]
 #[kani::stub(axelar_gateway::messaging_interface::xc_AxelarGatewayMessagingClient_is_message_approved, spec_is_message_approved)]
 #[kani::stub(axelar_gateway::messaging_interface::xc_AxelarGatewayMessagingClient_is_message_executed, spec_is_message_executed)]
@@ -178,7 +176,6 @@ fn rec_call_contract(env: &Env, contract: &Address, caller: &Address, destinatio
 }
 // HARNESS props=C07 tier=quick profile=app shape="example send"
 #[kani::proof]
-#[kani::unwind(100)]
 #[kani::stub(axelar_gateway::messaging_interface::xc_AxelarGatewayMessagingClient_call_contract, rec_call_contract)]
 #[kani::stub(axelar_gas_service::interface::xc_AxelarGasServiceClient_pay_gas, rec_pay_gas)]
 fn c07_example_send() {
